@@ -59,7 +59,9 @@ void ares_cancel(ares_channel_t *channel)
 
     node = ares_llist_node_first(list_copy);
     while (node != NULL) {
-      ares_query_t *query;
+      ares_query_t        *query;
+      ares_callback_dnsrec callback;
+      void                *arg;
 
       /* Cache next since this node is being deleted */
       next = ares_llist_node_next(node);
@@ -67,9 +69,16 @@ void ares_cancel(ares_channel_t *channel)
       query                   = ares_llist_node_claim(node);
       query->node_all_queries = NULL;
 
-      /* NOTE: its possible this may enqueue new queries */
-      query->callback(query->arg, ARES_ECANCELLED, 0, NULL);
+      /* Release the query before invoking its callback.  The callback may
+       * enqueue new queries, and if one of those fails to write on the
+       * connection this query is still linked to, closing that connection
+       * would requeue and complete this query a second time. */
+      callback = query->callback;
+      arg      = query->arg;
       ares_free_query(query);
+
+      /* NOTE: its possible this may enqueue new queries */
+      callback(arg, ARES_ECANCELLED, 0, NULL);
 
       node = next;
     }
